@@ -45,17 +45,17 @@ INSTANCES = [
          'symbolic number (0..3) of quiescent pops, the rest is left to ~MpmcRingBuffer; ' + ROUNDS % 3 + ' (thorough: 4)',
          VF_ELEM=1, VF_PUSH=1, VF_POP=2, VF_PRE=0, thorough={'steps': 4}),
     conc('conc_cap3_elem_batch', 3, 'false', 4, 3, ['thorough'],
-         'capacity 3 (exact); lifetime-tracked payload; producer A: try_push_batch(3 items) into a buffer with symbolic offset/pre-fill; '
-         'consumer: try_pop_into, try_pop(), try_pop(T&); elements left to the destructor; ' + ROUNDS % 4,
-         VF_ELEM=1, VF_PUSH=0, VF_POP=1, VF_BATCH=1, VF_A=3, VF_B=0, VF_C=3, VF_DRAIN=4, unwind=4),
-    conc('conc_cap4_3p2c', 4, 'true', 4, 6, ['thorough'],
-         'capacity 4; 3 producers (2+1+1 pushes, all three push kinds) and 2 consumers (2 pops each, all three pop kinds); symbolic start '
-         'offset 0..3 and pre-fill; quiescent probe + drain; ' + ROUNDS % 4,
-         VF_PUSH=0, VF_POP=0, VF_P3=1, VF_NCONS=2, VF_DRAIN=5, unwind=5),
-    conc('conc_cap2_2c_sym', 2, 'true', 5, 4, ['thorough'],
-         'capacity 2; producer A: 3 pushes, 2 consumers with 2 pops each; push and pop kinds symbolic per call; symbolic offset/pre-fill; '
-         + ROUNDS % 5,
-         VF_PUSH=9, VF_POP=9, VF_A=3, VF_B=0, VF_NCONS=2, VF_DRAIN=3),
+         'capacity 3 (exact); lifetime-tracked payload; producer A: try_push_batch(2 items); consumer: try_pop_into, try_pop(); '
+         'symbolic number of quiescent pops, the rest is left to the destructor; ' + ROUNDS % 4,
+         VF_ELEM=1, VF_PUSH=0, VF_POP=1, VF_BATCH=1, VF_A=2, VF_B=0, VF_C=2, VF_PRE=0, VF_DRAIN=3, unwind=4),
+    conc('conc_cap4_3p2c', 4, 'true', 3, 6, ['thorough'],
+         'capacity 4; 3 producers (2+1+1 pushes, all three push kinds) and 2 consumers (2 pops each, all three pop kinds); '
+         'quiescent probe + drain; ' + ROUNDS % 3,
+         VF_PUSH=0, VF_POP=0, VF_P3=1, VF_NCONS=2, VF_PRE=0, VF_DRAIN=5, unwind=5),
+    conc('conc_cap2_2c', 2, 'true', 4, 4, ['thorough'],
+         'capacity 2; producer A: 3 pushes (try_push(const T&), try_push(T&&), try_emplace), 2 consumers with 2 pops each (all three '
+         'pop kinds); quiescent probe + drain; ' + ROUNDS % 4,
+         VF_PUSH=1, VF_POP=1, VF_A=3, VF_B=0, VF_NCONS=2, VF_PRE=0, VF_DRAIN=3),
     {'name': 'seq_cap2', 'src': 'mpmc_seq.cpp', 'engine': 'cbmc', 'defs': {'VF_CAP': 2, 'VF_POW2': 'true', 'VF_OPS': 4},
      'unwind': 7, 'timeout': 1500, 'bounds': 'capacity 2; 4 symbolic operations from 6 kinds against a reference FIFO; lifetime-tracked payload',
      'thorough': {'defs': {'VF_CAP': 2, 'VF_POW2': 'true', 'VF_OPS': 6}, 'unwind': 8}},
